@@ -34,6 +34,7 @@ THEOREMS = {
         ("HH.C02.avx_hash128", "same, 128 bit"), ("HH.C02.avx_hash256", "same, 256 bit"),
         ("HH.C02.auto_eq_portable", "∀ Cfg Cpu: the back end chosen by the selection ladder gives the portable result"),
         ("HH.C02.sse_eq_spec64", "SSE = HighwayHash spec (64 bit)"), ("HH.C02.avx_eq_spec256", "AVX = HighwayHash spec (256 bit)"),
+        ("HH.C02.config_irrelevant", "∀ two environments (arch, std, target features, detected features), ∀ histories over HighwayHasher/PortableHash handles: identical outputs (tags excepted)"),
     ]),
     "C03": dict(module="HH.Props.C03", trusted=MODEL_TRUST + ["semantics of the NEON intrinsics in HH/Intrin/Neon.lean (Arm pseudo-code), validated against stdarch as interpreted by Miri; vshlq_u32 additionally through the runner's USHL shim", "Miri (aarch64-unknown-linux-gnu) as interpreter of the real src/aarch64.rs: not silicon"], theorems=[
         ("HH.C03.neon_hash64", "∀ k d, Neon finalize64 (append (new k) d) = P.hash64 k d"), ("HH.C03.neon_hash128", "same, 128"), ("HH.C03.neon_hash256", "same, 256"),
@@ -91,6 +92,7 @@ THEOREMS = {
         ("HH.C08.fromCheckpoint_ok", "restore from ANY 164-byte array never panics, both profiles"),
         ("HH.C08.history_ok", "∀ profile, ∀ chunk lists: appends then any finalize/checkpoint all return ok (induction)"),
         ("HH.C08.constructors_inv", "new/default/from_checkpoint(arbitrary) establish the invariant"),
+        ("HH.C08.profiles_wide_enough", "the theorems apply to checks on/off and to 16-, 32-, 64-bit usize (all quantified over Profile with usize >= 16 bits)"),
         ("HH.C08.legacy_debug_panic", "kernel-checked witness of the fixed defect: idx=32 panics in debug (shift overflow)"),
     ]),
     "C09": dict(module="HH.Props.C09", trusted=MODEL_TRUST + SIMD_TRUST + ["HH/Footprint.lean: the raw-pointer accesses of the back ends re-expressed over regions with unreadable bytes (validated by guard pages + Miri)", "mmap/mprotect guard pages, Miri's UB detection", "struct layout: measured in every build and checked against the alignment premises"], theorems=[
@@ -135,19 +137,21 @@ THEOREMS = {
     ]),
     "C16": dict(module="HH.Props.C16", trusted=["syn-based source-facts translator /verif/harness/facts (facts, not judgement; re-run on /repo/src in this run)", "rustc's forbid(unsafe_code) lint for the supporting compile check"], theorems=[
         ("HH.C16.no_unsafe", "no `unsafe` token (incl. macro bodies) in lib/portable/internal/key/traits/macros/hash.rs, any cfg branch"),
-        ("HH.C16.no_lint_override", "lint attributes in those files are exactly allow(non_snake_case), warn(missing_docs), deny(unsafe_code)"),
+        ("HH.C16.no_lint_override", "no lint attribute in those files mentions unsafe_code except to deny/forbid it"),
         ("HH.C16.lib_denies_unsafe", "lib.rs carries an unconditional #![deny(unsafe_code)]"),
         ("HH.C16.no_unsafe_attr_or_extern", "no unsafe attribute, foreign block or raw-pointer construct in those files"),
-        ("HH.C16.module_closure", "the files PortableHash executes import only internal/key/traits/core items"),
+        ("HH.C16.module_closure", "the files PortableHash executes import only crate::{internal,key,traits,portable}::, core::, super:: paths"),
         ("HH.C16.macro_closure", "macros they invoke are the crate's own two + core assertion macros"),
         ("HH.C16.no_path_redirect", "no #[path] redirection of the crate root's modules"),
         ("HH.C16.table_nontrivial", "the regenerated table is non-empty and sees the unsafe code of builder.rs"),
     ]),
-    "C17": dict(module="HH.Props.C17Facts", trusted=["source-facts translator", "Miri as interpreter of the big-endian / 32-bit targets"] + MODEL_TRUST, theorems=[
+    "C17": dict(module="HH.Props.C17", trusted=["source-facts translator", "Miri as interpreter of the big-endian / 32-bit targets"] + MODEL_TRUST, theorems=[
         ("HH.C17.only_le_conversions", "every byte<->integer conversion on the portable path is from_le_bytes / to_le_bytes"),
         ("HH.C17.no_target_sensitive", "no cfg(target_endian|target_pointer_width), usize::MAX/BITS, size_of::<usize>, isize, raw pointers"),
-        ("HH.C17.casts_inventory", "the integer casts of non-test portable code are the six listed (lengths <= 32, u32 count -> usize, 32-bit halves)"),
+        ("HH.C17.casts_inventory", "pointer-width-sensitive casts (usize/isize/len()) of non-test portable code are the four listed; fixed-width casts unrestricted"),
         ("HH.C17.conv_nonvacuous", "the table does contain the conversions of the checkpoint codec"),
+        ("HH.C17.width_independent", "∀ pointer widths >= 16 bits, checks on/off: appends, finalize64/128/256, checkpoint give the same (width-free) values"),
+        ("HH.C17.restore_width_independent", "restore from arbitrary bytes likewise"),
     ]),
     "C18": dict(module="HH.Props.C18Facts", trusted=["source-facts translator", "counting #[global_allocator] in the native runner"], theorems=[
         ("HH.C18.no_alloc_names", "no allocation-capable name outside #[cfg(test)] anywhere in src/"),
